@@ -2243,6 +2243,9 @@ def _enumerate(it, start=0):
     items = ITER(it)
     if all(g == TRUE for g, _ in items):
         return [(i + start, v) for i, (_, v) in enumerate(items)]
+    if isinstance(it, GList):
+        # positions depend on which elements are present: enumerate every alternative (by length) of the list
+        return GList._from([(g, tuple((i + start, v) for i, v in enumerate(t))) for g, t in it.inst_list()])
     raise Unsupported('enumerate over guarded sequence')
 
 
